@@ -295,6 +295,21 @@ def run_case(ctx, repo, case):
             ctx.expect_init_ok = False
         ctx.case_rec_id = id(rec)
         ctx.case_given_anchor = given_anchor_instant(desc)
+        # the object must carry what was asked for (the series checker reads
+        # repetitions and interval from the object)
+        ctx.ev("ctor.check")
+        single = recgen.is_single(desc)
+        want_reps = 1 if single else desc["reps"]
+        y, m, secs = recgen.interval_tuple(desc)
+        d = rec._duration
+        got_iv = None if d is None else (R.dur_nominal(d) + (R.dur_len(d),))
+        want_iv = None if single else (y, m, secs)
+        if rec._repetitions != want_reps or got_iv != want_iv or \
+                rec._format_number != desc["fmt"]:
+            ctx.violation("ctor.fields", "recurrence built from %r carries "
+                          "repetitions=%r interval=%r notation=%r" % (
+                              desc, rec._repetitions, got_iv,
+                              rec._format_number))
         ctx.case_key = ("rec", repr(sorted(desc.items(), key=str)))
         ctx.cls("mode/" + mode)
         if case["op"] == "iterate":
